@@ -9,7 +9,7 @@ from ..proto import NC, NCEval
 from ..src import arg_names, calls_in, unparse
 
 LEVEL = "other"
-TECHNIQUE = "class-protocol lints: attribute resolution over the operator class families, non-commutative term normalisation for the homomorphism clauses, must-precede guard rules, definite-assignment analysis, count-domain typing of vector packing"
+TECHNIQUE = "class-protocol lints: attribute resolution over the operator class families, non-commutative term normalisation for the homomorphism clauses, must-precede guard rules, definite-assignment analysis, count-domain typing of vector packing; finite-domain abstract execution of every compatibility guard (polarity), of the block bookkeeping state machines and of the dtype flags; running-offset dataflow rules for packing"
 LEVEL_TEXT = (
     "Decides, for every combinator class of the four operator families, that the attributes it reads on itself and "
     "on its operands exist, that _matvec / to_dense / to_sparse / _assemble / evaluate denote one and the same "
